@@ -31,7 +31,7 @@ theorem C01_value :
   generalize Hov = ho
   generalize ILv = il
   simp only [max_def, min_def, gt_iff_lt, decide_eq_true_eq]
-  split_ifs <;> simp_all [PyDict.get, PyDict.set, PyVal.toNum, PyVal.toStr, List.find?] <;> linarith
+  split_ifs <;> simp_all [PyDict.get, PyDict.set, PyVal.toNum, PyVal.toStr] <;> linarith
 
 /-- every per-regime entry of the detailed result is the standalone model on the same slurry
 (the heterogeneous one under the current switches), and `il` is the liquid gradient -/
@@ -45,7 +45,7 @@ theorem C01_dict :
   generalize Hev = he
   generalize Hov = ho
   generalize ILv = il
-  simp [PyDict.get, PyDict.set, PyVal.toNum, List.find?]
+  simp [PyDict.get, PyDict.set, PyVal.toNum]
 
 /-- the reported regime code is the Spec's choice, it is one of the four codes, the dict entry under
 that code is the reported value, and the long name is the code's name -/
@@ -63,7 +63,7 @@ theorem C01_regime :
   generalize Hov = ho
   generalize ILv = il
   simp only [gt_iff_lt, decide_eq_true_eq]
-  split_ifs <;> simp_all [PyDict.get, PyDict.set, PyVal.toNum, PyVal.toStr, List.find?, strLookup]
+  split_ifs <;> simp_all [PyDict.get, PyDict.set, PyVal.toNum, PyVal.toStr, strLookup, List.find?]
 
 end
 
